@@ -714,6 +714,69 @@ fn run_list2fsl(a: &Args) -> Args {
     vec![gbools(rv), gs(&iv), gs(&ivals)]
 }
 
+// ------------------------------------------------------------------ Dictionary<K, bytes> -> string / binary / view
+fn bytes_dt(t: i64) -> DataType {
+    match t { 0 => DataType::Binary, 1 => DataType::LargeBinary, 2 => DataType::Utf8, _ => DataType::LargeUtf8 }
+}
+fn bytes_target(t: i64) -> DataType {
+    match t { 0 => DataType::Utf8, 1 => DataType::LargeUtf8, 2 => DataType::Utf8View, 3 => DataType::Binary, 4 => DataType::LargeBinary, _ => DataType::BinaryView }
+}
+fn dict_key_dt(k: i64) -> DataType { match k { 0 => DataType::Int32, 1 => DataType::UInt8, 2 => DataType::Int8, _ => DataType::Int64 } }
+/// c13.dictbytes: [key kind, value type, target, safe, key prefix] [key validity] [keys] [value validity] [value lengths]
+/// [value bytes]: a DictionaryArray whose VALUES may hold nulls (with bytes underneath), unused entries and invalid UTF-8,
+/// cast to a string / binary / view type. Output [row validity] [row lengths] [bytes of the valid rows].
+fn run_dictbytes(a: &Args) -> Args {
+    let h = to_i64s(&a[0]);
+    let (kk, vt, tg, safe, pre) = (h[0], h[1], h[2], h[3] != 0, h[4] as usize);
+    let kvalid0 = to_bools(&a[1]);
+    let keys0 = to_i64s(&a[2]);
+    let vvalid = to_bools(&a[3]);
+    let lens = to_i64s(&a[4]);
+    let bytes = to_u8s(&a[5]);
+    let n = kvalid0.len();
+    // values
+    let mut offs: Vec<i64> = vec![0]; for l in &lens { offs.push(offs.last().unwrap() + l); }
+    let vn = if vvalid.iter().all(|b| *b) { None } else { Some(NullBuffer::from(vvalid.clone())) };
+    let buf = arrow_buffer::Buffer::from_vec(bytes);
+    let o32 = || OffsetBuffer::new(ScalarBuffer::from(offs.iter().map(|x| *x as i32).collect::<Vec<_>>()));
+    let o64 = || OffsetBuffer::new(ScalarBuffer::from(offs.clone()));
+    let values: ArrayRef = match vt {
+        0 => match BinaryArray::try_new(o32(), buf, vn) { Ok(x) => Arc::new(x), Err(_) => return skip() },
+        1 => match LargeBinaryArray::try_new(o64(), buf, vn) { Ok(x) => Arc::new(x), Err(_) => return skip() },
+        2 => match StringArray::try_new(o32(), buf, vn) { Ok(x) => Arc::new(x), Err(_) => return skip() },
+        _ => match LargeStringArray::try_new(o64(), buf, vn) { Ok(x) => Arc::new(x), Err(_) => return skip() },
+    };
+    // keys behind `pre` extra slots, sliced out afterwards
+    let idx: Vec<usize> = (0..pre).map(|i| if n == 0 { 0 } else { i % n }).chain(0..n).collect();
+    let kvalid: Vec<bool> = (0..pre).map(|i| n != 0 && i % 2 == 0).chain(kvalid0.iter().cloned()).collect();
+    let kv = |i: usize| -> i64 { if n == 0 { 0 } else { keys0[i] } };
+    let knb = nulls_of(&kvalid, false);
+    macro_rules! dict { ($K:ty, $n:ty) => {{
+        let keys = PrimitiveArray::<$K>::new(ScalarBuffer::from(idx.iter().map(|&i| kv(i) as $n).collect::<Vec<$n>>()), knb);
+        match DictionaryArray::<$K>::try_new(keys, values) { Ok(d) => Arc::new(d) as ArrayRef, Err(_) => return skip() }
+    }}; }
+    let dict: ArrayRef = match kk { 0 => dict!(Int32Type, i32), 1 => dict!(UInt8Type, u8), 2 => dict!(Int8Type, i8), _ => dict!(Int64Type, i64) };
+    let dict = if pre > 0 { dict.slice(pre, n) } else { dict };
+    let want = bytes_target(tg);
+    let r = match cast_with_options(&dict, &want, &opts(safe)) { Ok(r) => r, Err(e) => return err_kind(&e) };
+    if r.data_type() != &want { return vec![gs(&[-2i64, 1])]; }
+    if r.len() != n { return vec![gs(&[-2i64, 2])]; }
+    if r.to_data().validate_full().is_err() { return vec![gs(&[-2i64, 3])]; }
+    let get = |i: usize| -> Vec<u8> {
+        match tg {
+            0 => r.as_any().downcast_ref::<StringArray>().unwrap().value(i).as_bytes().to_vec(),
+            1 => r.as_any().downcast_ref::<LargeStringArray>().unwrap().value(i).as_bytes().to_vec(),
+            2 => r.as_any().downcast_ref::<StringViewArray>().unwrap().value(i).as_bytes().to_vec(),
+            3 => r.as_any().downcast_ref::<BinaryArray>().unwrap().value(i).to_vec(),
+            4 => r.as_any().downcast_ref::<LargeBinaryArray>().unwrap().value(i).to_vec(),
+            _ => r.as_any().downcast_ref::<BinaryViewArray>().unwrap().value(i).to_vec(),
+        }
+    };
+    let mut rv = Vec::new(); let mut rl: Vec<i64> = Vec::new(); let mut out: Vec<u8> = Vec::new();
+    for i in 0..n { if r.is_valid(i) { let b = get(i); rv.push(true); rl.push(b.len() as i64); out.extend(b); } else { rv.push(false); rl.push(0); } }
+    vec![gbools(rv), gs(&rl), gbytes(&out)]
+}
+
 pub fn run(op: &str, a: &Args) -> Option<Args> {
     Some(match op {
         "c13.cast" | "c13.cast_m" => run_cast(a),
@@ -728,6 +791,7 @@ pub fn run(op: &str, a: &Args) -> Option<Args> {
         "c13.ivcast" => run_ivcast(a),
         "c13.ivfmt" => run_ivfmt(a),
         "c13.list2fsl" => run_list2fsl(a),
+        "c13.dictbytes" => run_dictbytes(a),
         "c13.ivtext_rt" => run_ivtext_rt(a),
         _ => return None,
     })
@@ -1469,6 +1533,15 @@ fn gen_regressions(emit: &mut dyn FnMut(Case)) {
             emit(Case::new("c13.ivcast", vec![gs(&[0i64, u]), g(safe), gbools([true]), g(m), g(d), g(n), gs(&[0i64, 0])], &["c13.ivcast", "c13.ivcast.spec"], "regress/mdn>dur".to_string()));
         }
     } }
+    // sparse Dictionary<K, Binary|LargeBinary> -> Utf8View, safe mode, an invalid UTF-8 value in the dictionary and a NULL value
+    // referenced by a valid key: that row is NULL, not ""
+    for vt in [0i64, 1] { for tg in [2i64, 0, 5] { for (nk, keys) in [(3usize, vec![1i64, 0, 3]), (20, (0..20).map(|i| (i % 8) as i64).collect::<Vec<i64>>())] {
+        let vals: [Option<&[u8]>; 8] = [Some(b"a"), None, Some(b"\xff\xfe"), Some(b"longer than twelve bytes"), Some(b""), None, Some(b"z"), Some(b"unused")];
+        let mut lens: Vec<i64> = Vec::new(); let mut bytes: Vec<u8> = Vec::new();
+        for v in vals.iter() { let b = v.unwrap_or(b""); lens.push(b.len() as i64); bytes.extend_from_slice(b); }
+        let args: Args = vec![gs(&[0i64, vt, tg, 1, 0]), gbools(vec![true; nk]), gs(&keys), gbools(vals.iter().map(|v| v.is_some())), gs(&lens), gbytes(&bytes)];
+        emit(Case::new("c13.dictbytes", args, &["c13.dictbytes.spec"], "regress/dict-null-value".to_string()));
+    } } }
     // time part of the interval text at and above one hour
     for (i, (d, ms)) in [(0i64, 3_661_001i64), (0, -3_661_001), (2, 86_399_999), (-3, 3_600_000), (0, i32::MAX as i64), (0, i32::MIN as i64)].into_iter().enumerate() {
         emit(Case::new("c13.ivfmt", vec![gs(&[1i64, 0]), g(d), g(ms), vec![]], &["c13.ivfmt"], "regress/daytime-text".to_string()));
@@ -1512,6 +1585,50 @@ fn gen_list2fsl(thorough: bool, r: &mut Rng, emit: &mut dyn FnMut(Case)) {
     } } }
 }
 
+/// Dictionary<K, Binary | LargeBinary | Utf8 | LargeUtf8> -> Utf8 / LargeUtf8 / Utf8View / Binary / LargeBinary / BinaryView in both
+/// modes, sparse (keys.len() < values.len() / 2: the view fast paths) and dense shapes. The dictionary VALUES hold nulls that
+/// valid keys reference, unused entries, invalid UTF-8 entries (referenced and unreferenced), long (> 12 byte) and empty strings.
+fn gen_dictbytes(thorough: bool, r: &mut Rng, emit: &mut dyn FnMut(Case)) {
+    let good: [&[u8]; 8] = [b"", b"a", b"hello", "h\u{e9}llo w\u{f6}rld".as_bytes(), b"exactly12byt", b"thirteen byte", "\u{1F600} long enough to need a buffer".as_bytes(), b"0"];
+    let bad: [&[u8]; 4] = [b"\xff", b"ab\xc3", b"\xed\xa0\x80 surrogate, longer than twelve", b"\xc0\xaf"];
+    let reps = if thorough { 6 } else { 1 };
+    let mut k = 0usize;
+    for vt in 0..4i64 { for tg in 0..6i64 { for shape in 0..4usize { for _ in 0..(if shape < 2 { reps + 1 } else { reps }) {
+        let (from, to) = (DataType::Dictionary(Box::new(DataType::Int32), Box::new(bytes_dt(vt))), bytes_target(tg));
+        if !can_cast_types(&from, &to) { continue; }
+        // shape 0/1 sparse (few keys, many values), 2/3 dense
+        let nvals = if shape < 2 { 9 + r.below(8) } else { 2 + r.below(4) };
+        let nkeys = if shape < 2 { if r.chance(1, 6) { r.below(2) } else { 2 + r.below(nvals / 2 - 2) } } else { nvals * 2 + r.below(20) };
+        let binary = vt < 2;
+        let mut vvalid = Vec::new(); let mut lens: Vec<i64> = Vec::new(); let mut bytes: Vec<u8> = Vec::new(); let mut vbad = Vec::new();
+        for i in 0..nvals {
+            let null = (i == 1) || (i != 2 && r.chance(1, 5));
+            let invalid = binary && !null && ((shape % 2 == 1 && i == 2) || (shape % 2 == 1 && r.chance(1, 4)));
+            let b: &[u8] = if invalid { bad[r.below(4)] } else if null && r.chance(1, 2) { b"" } else { good[r.below(8)] };
+            vvalid.push(!null); vbad.push(invalid); lens.push(b.len() as i64); bytes.extend_from_slice(b);
+        }
+        // keys: make sure the null value (index 1) and, in the odd shapes, the invalid value (index 2) are referenced by valid keys
+        let mut kvalid = Vec::new(); let mut keys: Vec<i64> = Vec::new();
+        for i in 0..nkeys {
+            let key = match i { 0 => 1, 1 if nvals > 2 => 2, _ => r.below(nvals) } as i64;
+            kvalid.push(!(i > 1 && r.chance(1, 5))); keys.push(key);
+        }
+        let referenced_bad = keys.iter().zip(kvalid.iter()).any(|(key, v)| *v && vbad[*key as usize]);
+        let any_bad = vbad.iter().any(|b| *b);
+        for safe in 0..2i64 {
+            // KNOWN-FINDING F74 (open, recorded for C02): strict mode validates the whole values buffer, so it fails on
+            // invalid UTF-8 in UNUSED dictionary values. Strict cases are emitted only when every invalid value is
+            // absent or some valid key references one (then the error is the specified one).
+            if safe == 0 && any_bad && !referenced_bad && tg < 3 { continue; }
+            let kk = (k % 4) as i64;
+            let pre = [0i64, 0, 3][k % 3];
+            let args: Args = vec![gs(&[kk, vt, tg, safe, pre]), gbools(kvalid.iter().cloned()), gs(&keys), gbools(vvalid.iter().cloned()), gs(&lens), gbytes(&bytes)];
+            emit(Case::new("c13.dictbytes", args, &["c13.dictbytes.spec"], format!("dictbytes/v{vt}>t{tg}/{}/s{safe}/bad{}{}", if shape < 2 { "sparse" } else { "dense" }, any_bad as u8, referenced_bad as u8)));
+            k += 1;
+        }
+    } } } }
+}
+
 pub fn generate(tier: &str, r: &mut Rng, emit: &mut dyn FnMut(Case)) {
     let thorough = tier == "thorough";
     gen_regressions(emit);
@@ -1520,6 +1637,7 @@ pub fn generate(tier: &str, r: &mut Rng, emit: &mut dyn FnMut(Case)) {
     gen_interval(thorough, r, emit);
     gen_interval_text(thorough, r, emit);
     gen_list2fsl(thorough, r, emit);
+    gen_dictbytes(thorough, r, emit);
     gen_text(thorough, r, emit);
     gen_cancast(thorough, r, emit);
     gen_dtype(thorough, r, emit);
